@@ -1,5 +1,5 @@
 import OZ.Drv.C20Util
-import OZ.Model.RegBinder
+import OZ.Model.RegBinderMon
 /-
 `binder ...` sub-driver of C20: the token binder (buckets of 100, swap-and-pop, batches).
 Small sequences (`u=<n>` in the label) probe every getter over tokens 0..u-1 and indices 0..u;
@@ -7,19 +7,13 @@ long ones print the length, the `TotalCount` entry, a digest of `linked_tokens`,
 order-independent sums and windows of probes around the bucket boundaries.
 -/
 namespace OZ.Drv.C20.Binder
-open OZ.Drv OZ.Drv.C20 OZ.RegBinder OZ.Reg
+open OZ.Drv OZ.Drv.C20 OZ.RegBinder OZ.RegBinder.Mon OZ.Reg
 
 structure M where
   s : State
   u : Nat            -- 0 = long registry
 
 def initM (ws : List String) : M := { s := init, u := (kvNat? ws "u").getD 0 }
-
-/-- an op of the library, or the quick tier's state injection `binder preload n=<k>`: the state
-`bind_tokens` leaves after binding tokens 0..k-1 in order to an empty binder -/
-inductive Cmd where
-  | op (o : Op)
-  | preload (n : Nat)
 
 def parseCmd (ws : List String) : Option Cmd :=
   match ws with
@@ -31,22 +25,6 @@ def parseCmd (ws : List String) : Option Cmd :=
     | "preload" => some (.preload (kvN rest "n"))
     | _ => none
   | _ => none
-
-def dedupKeep (l : List Nat) : List Nat := l.foldl (fun acc x => if acc.contains x then acc else acc ++ [x]) []
-
-def opTokens : Cmd → List Nat
-  | .op (.bind t) => [t]
-  | .op (.unbind t) => [t]
-  | .op (.bindMany ts) => (match ts.head?, ts.getLast? with
-    | some a, some b => [a, b]
-    | _, _ => [])
-  | .preload _ => []
-
-/-- probe tokens and probe indices, a function of the op and of the observed length only -/
-def probes (u : Nat) (op : Cmd) (n : Nat) : List Nat × List Nat :=
-  if u > 0 then (List.range u, List.range (u + 1))
-  else (dedupKeep (opTokens op ++ [0, 1, 99, 100, 101, 199, 200, 201, 9999, 10000]),
-        dedupKeep [0, 1, 98, 99, 100, 101, 198, 199, 200, 201, n - 2, n - 1, n])
 
 def showList (l : List Nat) : String := if l.length ≤ 16 then nats l else s!"#{digest l}"
 
@@ -70,11 +48,8 @@ def stepLine (m : M) (line : String) : M × String :=
     | .ok s' => let m' := { m with s := s' }; (m', "ok " ++ showState m' (.op op))
     | .error _ => (m, "err " ++ showState m (.op op))
 
-/-! ### monitor: the plain set of bound tokens -/
-
-structure Mon where
-  set : List Nat
-  u : Nat
+/-! ### monitor: parsing only; the checks are `OZ.RegBinder.Mon.checkCore` (OZ/Model/RegBinderMon.lean),
+proved sound in OZ/Props/C20cMon.lean -/
 
 def minit (ws : List String) : Mon := { set := [], u := (kvNat? ws "u").getD 0 }
 
@@ -84,61 +59,25 @@ def parsePairs (s : String) : List (Nat × Option Nat) :=
     | [a, b] => do pure ((← a.toNat?), b.toNat?)
     | _ => none)
 
-def plain (g : Mon) (op : Op) : Except String Mon :=
-  match op with
-  | .bind t =>
-    if g.set.contains t then .error "dup"
-    else if g.set.length ≥ 10000 then .error "limit.bind_token.tokens"
-    else .ok { g with set := g.set ++ [t] }
-  | .bindMany ts =>
-    if ts.length > 200 then .error "limit.bind_tokens.batch_size"
-    else if g.set.length + ts.length > 10000 then .error "limit.bind_tokens.tokens"
-    else if !nodupB ts then .error "dup_arg"
-    else if ts.any g.set.contains then .error "dup"
-    else .ok { g with set := g.set ++ ts }
-  | .unbind t => if g.set.contains t then .ok { g with set := g.set.erase t } else .error "absent"
+def parseObs (obs : String) : Obs :=
+  let ws := words obs
+  let listS := kvS ws "list"
+  { ok := ws.head? == some "ok",
+    n := kvN ws "n",
+    cnt := kvN ws "cnt",
+    sum := kvN ws "sum",
+    sq := kvN ws "sq",
+    full := if listS.startsWith "#" then none else some (natList listS),
+    b := parsePairs (kvS ws "b"),
+    ix := parsePairs (kvS ws "ix"),
+    atL := parsePairs (kvS ws "at") }
 
 def check (g : Mon) (opl obs : String) : Mon × Option String :=
-  let ws := words obs
-  let ok := ws.head? == some "ok"
   match parseCmd (words opl) with
   | none => (g, some s!"site=binder.parse bad op {opl}")
-  | some (.preload n) => ({ g with set := List.range n }, none)
-  | some (.op op) =>
-    let (g2, accept) : Mon × Option String :=
-      match plain g op, ok with
-      | .ok g', true => (g', none)
-      | .error _, false => (g, none)
-      | .ok _, false => (g, some (
-          let near := match op with
-            | .bind _ => if g.set.length = 9999 then "limit.bind_token.tokens" else "valid"
-            | .bindMany ts => if g.set.length + ts.length = 10000 then "limit.bind_tokens.tokens"
-                              else if ts.length = 200 then "limit.bind_tokens.batch_size" else "valid"
-            | _ => "valid"
-          refusedSite "binder" near))
-      | .error why, true => (g, some (acceptedSite "binder" why))
-    let n := kvN ws "n"
-    let listS := kvS ws "list"
-    let full := if listS.startsWith "#" then none else some (natList listS)
-    let b := parsePairs (kvS ws "b")
-    let ix := parsePairs (kvS ws "ix")
-    let atL := parsePairs (kvS ws "at")
-    let fail := firstFail [accept,
-      chk (n = g2.set.length) s!"site=binder.count linked_tokens has {n} entries but the plain set has {g2.set.length}",
-      chk (kvN ws "cnt" = g2.set.length) s!"site=binder.count TotalCount = {kvN ws "cnt"} but the plain set has {g2.set.length}",
-      chk (kvN ws "sum" = sum1 g2.set ∧ kvN ws "sq" = sumSq g2.set) "site=binder.enumerates_once linked_tokens is not a permutation of the plain set (sums differ)",
-      (match full with
-        | some l => chk (nodupB l ∧ sameSet l g2.set) s!"site=binder.enumerates_once linked_tokens = {l} but the plain set is {g2.set}"
-        | none => none),
-      chk (b.all (fun (t, v) => v == some (if g2.set.contains t then 1 else 0))) "site=binder.member is_token_bound differs from membership in the plain set",
-      chk (ix.all (fun (t, v) => (v.isSome == g2.set.contains t) && (match v with | some i => decide (i < n) | none => true)))
-        "site=binder.index get_token_index succeeds exactly on members, with an index below the count",
-      chk (atL.all (fun (i, v) => (v.isSome == decide (i < n)) && (match v with | some t => g2.set.contains t | none => true)))
-        "site=binder.index get_token_by_index succeeds exactly below the count, and yields a member",
-      chk (ix.all (fun (t, v) => match v with
-          | some i => (match atL.find? (fun x => x.1 == i) with | some (_, some t') => t' == t | _ => true) &&
-                      (match full with | some l => l[i]? == some t | none => true)
-          | none => true)) "site=binder.enumerates_once get_token_by_index(get_token_index(t)) is not t"]
-    (g2, fail)
+  | some c => checkCore g c (parseObs obs)
+
+/-- the monitor state type, as the dispatcher OZ/Drv/C20.lean names it -/
+abbrev MonT := OZ.RegBinder.Mon.Mon
 
 end OZ.Drv.C20.Binder
